@@ -345,6 +345,88 @@ func init() {
 			emit("bk.dump")
 		}
 	}}
+	// authorisation on every route (C17): read/write denials on concrete topics, retained messages on
+	// them, wildcard subscriptions that cover them, live publishes, inline publishes, wills on denied topics
+	suites["brokeracl"] = suite{gen: func(r *rand.Rand, n int, emit func(string)) {
+		topics := []string{"a", "a/b", "a/b/c", "x", "x/y"}
+		filters := []string{"#", "a/#", "+/b", "a/+", "x/+", "a/b", "x", "$share/g/a/#"}
+		ids := []string{"c1", "c2", "c3"}
+		for done := 0; done < n; {
+			emit("reset")
+			caps := ""
+			if r.Intn(5) == 0 {
+				caps = " obscure=1"
+			}
+			emit("bk.new" + caps)
+			for i, k := 0, 2+r.Intn(4); i < k; i++ {
+				what := pick(r, topics)
+				if r.Intn(4) == 0 {
+					what = pick(r, filters)
+				}
+				emit(fmt.Sprintf("bk.acl %s %s %s", hs(pick(r, ids)), hs(what), pick(r, []string{"r", "r", "w"})))
+			}
+			next := 1
+			open := map[string]int{}
+			ver := map[string]int{}
+			conn := func(id string) {
+				v := pick(r, []int{4, 5, 5})
+				kv := ""
+				if r.Intn(3) == 0 {
+					kv = fmt.Sprintf(" will=%s:%s:%d:%d:0", hs(pick(r, topics)), hs("w"+id), r.Intn(2), r.Intn(2))
+				}
+				if v == 5 {
+					kv += " sei=100"
+				}
+				emit(fmt.Sprintf("bk.conn %d %d %d %s%s", next, v, r.Intn(2), hs(id), kv))
+				open[id] = next
+				ver[id] = v
+				next++
+			}
+			for _, id := range ids {
+				conn(id)
+			}
+			pid := 10
+			for i, l := 0, 12+r.Intn(25); i < l; i++ {
+				done++
+				id := pick(r, ids)
+				c, ok := open[id]
+				if !ok {
+					conn(id)
+					continue
+				}
+				switch k := r.Intn(20); {
+				case k < 6:
+					extra := ""
+					if r.Intn(2) == 0 {
+						extra = " r=1"
+					}
+					q := r.Intn(2)
+					emit(fmt.Sprintf("bk.send %d PUBLISH q=%d id=%d t=%s p=%s%s", c, q, 1+r.Intn(3), hs(pick(r, topics)), hs(fmt.Sprintf("m%d", done)), extra))
+				case k < 8:
+					emit(fmt.Sprintf("bk.ipub %s %s %d %d", hs(pick(r, topics)), hs(fmt.Sprintf("i%d", done)), r.Intn(2), r.Intn(2)))
+				case k < 14:
+					pid++
+					f := pick(r, filters)
+					if ver[id] == 5 {
+						emit(fmt.Sprintf("bk.send %d SUBSCRIBE id=%d f=%s:%d:0:0:0", c, pid, hs(f), r.Intn(2)))
+					} else {
+						emit(fmt.Sprintf("bk.send %d SUBSCRIBE id=%d f=%s:%d", c, pid, hs(f), r.Intn(2)))
+					}
+				case k < 15:
+					pid++
+					emit(fmt.Sprintf("bk.send %d UNSUBSCRIBE id=%d f=%s", c, pid, hs(pick(r, filters))))
+				case k < 17:
+					emit(fmt.Sprintf("bk.send %d PUBACK id=%d", c, 1+r.Intn(3)))
+				case k < 19:
+					emit(fmt.Sprintf("bk.drop %d", c))
+					delete(open, id)
+				default:
+					emit("bk.dump")
+				}
+			}
+			emit("bk.dump")
+		}
+	}}
 	suites["broker"] = suite{gen: genBroker(false)}
 	// the same histories with connection losses whose handler is held before its session clean-up
 	// while other ops (typically a reconnect of the same client id) run: schedules of the old
